@@ -1020,3 +1020,22 @@ func (t *Term) urange() (uint64, uint64) {
 	m := mask(t.sort.W)
 	return t.kv & t.km, (t.kv | ^t.km) & m
 }
+
+// expand prints a term as a nested expression up to a depth (diagnostics).
+func (tt *TermTable) expand(t *Term, depth int) string {
+	if t.op == OpConst || t.op == OpVar {
+		return t.ref()
+	}
+	if depth == 0 {
+		return "…"
+	}
+	name := opNames[t.op]
+	if name == "" {
+		name = fmt.Sprintf("op%d[%d]", t.op, t.val)
+	}
+	s := "(" + name
+	for _, a := range t.args {
+		s += " " + tt.expand(a, depth-1)
+	}
+	return s + ")"
+}
